@@ -213,7 +213,7 @@ static int ranges_for(int w, struct range *R, int rich)
   R[n++] = (struct range){R_ONE, 0, 0}; R[n++] = (struct range){R_ALL, 0, 0};
   if (w > 1) { R[n++] = (struct range){R_ONE, w - 1, 0}; R[n++] = (struct range){R_RANGE, 0, 1}; R[n++] = (struct range){R_FROM, 1, 0}; R[n++] = (struct range){R_ODD, 0, 0}; R[n++] = (struct range){R_EVEN, 0, 0}; R[n++] = (struct range){R_WRAP, w - 1, 2}; }
   R[n++] = (struct range){R_ONE, w, 0};                 /* does not exist */
-  if (rich) { R[n++] = (struct range){R_RANGE, 0, w}; R[n++] = (struct range){R_WRAP, 0, w + 1}; if (w > 2) { R[n++] = (struct range){R_ONE, 1, 0}; R[n++] = (struct range){R_RANGE, 1, w - 1}; R[n++] = (struct range){R_WRAP, 1, 2}; } R[n++] = (struct range){R_FROM, w, 0}; R[n++] = (struct range){R_RANGE, 1, 0}; }
+  if (rich) { R[n++] = (struct range){R_RANGE, 0, w}; R[n++] = (struct range){R_WRAP, 0, w + 1}; if (w > 2) { R[n++] = (struct range){R_ONE, 1, 0}; R[n++] = (struct range){R_RANGE, 1, w - 1}; R[n++] = (struct range){R_WRAP, 1, 2}; } R[n++] = (struct range){R_FROM, w, 0}; }   /* a range that ends before it starts is malformed (rejected since the repair of the range parser): it is in the malformed list, not here */
   return n;
 }
 
@@ -705,7 +705,7 @@ static void malformed_checks(const struct topo *tp, uint64_t *idx)
     {"hwloc-calc", {"--foo", "all"}}, {"hwloc-calc", {"all", "-N"}}, {"hwloc-calc", {"--cof", "bar", "all"}}, {"hwloc-calc", {"--cif", "bar", "all"}}, {"hwloc-calc", {"all", "--sep"}},
     {"hwloc-calc", {"--best-memattr", "nosuchattr", "all"}}, {"hwloc-calc", {"--cif", "systemd-dbus-api", "all"}},
     {"hwloc-calc", {"-N", "nosuchtype", "all"}}, {"hwloc-calc", {"-I", "nosuchtype", "all"}}, {"hwloc-calc", {"-H", "nosuchtype.pu", "all"}}, {"hwloc-calc", {"-H", "pu.misc", "all"}},
-    {"hwloc-calc", {"nosuchtype:0"}}, {"hwloc-calc", {"pu:"}}, {"hwloc-calc", {"pu:x"}}, {"hwloc-calc", {"pu:0-x"}}, {"hwloc-calc", {"pu:0:"}}, {"hwloc-calc", {"pu:0.core"}}, {"hwloc-calc", {"pu:0.nosuch:0"}}, {"hwloc-calc", {"0xzz"}}, {"hwloc-calc", {"pu[:0"}},
+    {"hwloc-calc", {"nosuchtype:0"}}, {"hwloc-calc", {"pu:"}}, {"hwloc-calc", {"pu:x"}}, {"hwloc-calc", {"pu:0-x"}}, {"hwloc-calc", {"pu:1-0"}}, {"hwloc-calc", {"pu:0:"}}, {"hwloc-calc", {"pu:0.core"}}, {"hwloc-calc", {"pu:0.nosuch:0"}}, {"hwloc-calc", {"0xzz"}}, {"hwloc-calc", {"pu[:0"}},
     {"hwloc-distrib", {NULL}}, {"hwloc-distrib", {"abc"}}, {"hwloc-distrib", {"1", "2"}}, {"hwloc-distrib", {"--foo", "2"}}, {"hwloc-distrib", {"--cof", "bar", "2"}}, {"hwloc-distrib", {"--from"}}, {"hwloc-distrib", {"2", "--restrict"}},
     {"lstopo-no-graphics", {"--of", "nosuchformat"}}, {"lstopo-no-graphics", {"--filter", "nosuchtype:all"}}, {"lstopo-no-graphics", {"--filter", "pu:nosuchkind"}}, {"lstopo-no-graphics", {"--export-xml-flags", "nosuchflag", "--of", "xml"}}, {"lstopo-no-graphics", {"--restrict", "zzz", "--of", "console"}},
     {"hwloc-diff", {NULL}}, {"hwloc-diff", {"/nonexistent/a.xml", "/nonexistent/b.xml"}}, {"hwloc-patch", {NULL}}, {"hwloc-patch", {"/nonexistent/a.xml", "/nonexistent/d.xml"}},
